@@ -118,6 +118,7 @@ def extract(us, workdir):
                       opaque_records=us.opaque_records)
     text = unit.emit(us.emit)
     us.c_text = text
+    us.dropped_loops = list(getattr(unit, 'dropped_loops', []))
     us.auto_stubs = list(getattr(unit, 'auto_stubs', []))      # const observers defined in another TU: replaced by 'any result, no side effect'
     os.makedirs(workdir, exist_ok=True)
     cpath = os.path.join(workdir, us.name + '.c')
@@ -260,11 +261,12 @@ def run_target(us, t, workdir, tier, log):
     if t.enforce and 'postcondition' not in names and '__CPROVER_ensures' in (us.spec.get(('contract', t.enforce)) or ''):
         raise Undecided('%s/%s: no postcondition obligation generated for %s' % (us.name, t.id, t.enforce))
     if t.loops:
-        nloops = sum(1 for k in us.spec if k[0] == 'loop' and (k[1] == t.enforce or k[1] in t.functions))
+        gone = set(getattr(us, 'dropped_loops', []))     # loop contracts for loops the (changed) code no longer has: dropped by the printer, reported in the evidence
+        nloops = sum(1 for k in us.spec if k[0] == 'loop' and (k[1] == t.enforce or k[1] in t.functions) and (k[1], k[2]) not in gone)
         got = len([o for o in obls if 'loop_invariant_step' in o.name or 'loop invariant is preserved' in o.desc or 'invariant after step' in o.desc.lower()])
         if nloops and got < nloops:
             # loop contracts of functions that are not reachable from this harness are not expected here
-            if t.enforce and any(k[0] == 'loop' and k[1] == t.enforce for k in us.spec):
+            if t.enforce and any(k[0] == 'loop' and k[1] == t.enforce and (k[1], k[2]) not in gone for k in us.spec):
                 raise Undecided('%s/%s: loop contract silently dropped (%d step obligations for %d loop contracts)' % (us.name, t.id, got, nloops))
     return obls, gi_cmd + ' && ' + ' '.join(cbmc_cmd(t, os.path.basename(gb), backends[0]))
 
